@@ -176,6 +176,11 @@ def run(report, db, tier):
     R5 = report.rule('R01.5', 'cipher transparency: wrapper methods are '
                      'single pass-through updates')
     shared.wrapper_passthrough_ps(report, R5, db)
+    # "... and encryption": the frames that follow the encryption response
+    # are read through the cipher wrapper only if the reading loop takes the
+    # stream from the connection for every frame
+    from .c10 import transport_lookup
+    transport_lookup(report, db, cg, M, rule_id='R01.9')
 
 
 def writer(report, db, S, M):
@@ -533,9 +538,7 @@ def isolation(report, db, cg, S, M, rule_id='R01.3'):
                         e.node, 'the stream itself is handed to %s: a '
                         'decoder could read past the end of the frame'
                         % show(e.fn))
-            if e.method() == 'read' and any(
-                    t.name == 'read' and t.cls is not None
-                    and t.cls.name == 'Packet' for t in (e.targets or ())):
+            if shared.is_packet_decode(e):
                 a = [x for x in e.args if not (x == e.fn[1] if e.fn[0]
                                                == 'attr' else False)]
                 src = a[-1] if a else None
